@@ -1232,6 +1232,8 @@ class OpsMixin:
 
 def _has_yield(fn):
     for st in fn.body:
+        if isinstance(st, (ast.FunctionDef, ast.ClassDef)):
+            continue
         for n in _walk_no_nested(st):
             if isinstance(n, (ast.Yield, ast.YieldFrom)):
                 return True
